@@ -20,6 +20,8 @@ S15 zero-sized types and empty arrays: no division by a type width, no trapping 
 S16 a function whose parameters have no bits is refused before the circuit is built (`some input bit`)
 S17 a re-typed match / if / array literal takes over the type of its branches / elements only when all of their types compared equal
 S19 the split of a single array parameter into per-element parties covers all three array type variants
+S20 the size of an array type is not computed with trapping arithmetic on a number of elements the program text chooses (known findings)
+S21 a difference in a size expression the type checker synthesises cannot underflow (known finding: join of two empty arrays)
 S18 the Range arm of constrain_type re-types an untyped range for signed as well as for unsigned expected element types
 S12 the number type stored in a Range node (which the lowering sizes the elements with) follows the re-typing of the range
 """
@@ -42,7 +44,7 @@ LEVEL_TEXT = (
     "accepting exit - otherwise the node's type says u16 while its literals are still lowered as 32-bit values and the circuit has "
     "the wrong output width; (S3) the builder receives the collected input parties, and build() is given exactly the wires "
     "returned by the function body. The 161 panic bits are C02-P5, the literal layout is C09, the join row widths are C13-J6."
-    " Also decided since the hunter rounds: the number type stored in a Range node follows re-typing (S12); the one-node re-typers are only the leaf case of constrain_type (S13); inside a collection an unspecified number type is re-typed in place only to a 32-bit type (S14); no division by a type width or element count and no trapping `count - c` in the lowering (S15); a function without any input bit is refused before the circuit is built (S16); a re-typed match / if / array literal adopts its branches' / elements' type only when they all agree (S17); an untyped range can be re-typed for signed as well as unsigned element types (S18). S19: the split of a single array parameter into one party per element covers all three spellings of an array type.")
+    " Also decided since the hunter rounds: the number type stored in a Range node follows re-typing (S12); the one-node re-typers are only the leaf case of constrain_type (S13); inside a collection an unspecified number type is re-typed in place only to a 32-bit type (S14); no division by a type width or element count and no trapping `count - c` in the lowering (S15); a function without any input bit is refused before the circuit is built (S16); a re-typed match / if / array literal adopts its branches' / elements' type only when they all agree (S17); an untyped range can be re-typed for signed as well as unsigned element types (S18). S19: the split of a single array parameter into one party per element covers all three spellings of an array type. Two structural clauses of 'compiling completes without an internal panic': S20 - the size of an array type is not computed with trapping arithmetic on a number of elements the program text chooses (three known findings: array sizes are unbounded); S21 - a difference in a size expression that the type checker writes itself cannot underflow (known finding: the type of `join` of two empty arrays).")
 LEVEL_NOTE = ("Trusted: rustc MIR. The S2 table (which children share the node's type) was filled by reading the language documentation; "
               "it names children by their position in the ExprEnum variant.")
 EXPLANATION = "Functions analysed: TypedProgram::compile_with_constants (parameter wiring, builder construction, build call), check::constrain_type."
@@ -958,5 +960,53 @@ def rule_s20(ctx):
     return res
 
 
+def _const_expr_variant(body, op, depth=0):
+    """Variant of the ConstExprEnum an operand (ConstExpr, Box<ConstExpr>, ConstExprEnum) was built from, None if it is not built here."""
+    if depth > 6 or op.get("k") not in ("copy", "move"):
+        return None
+    for (r, p) in body.trace_operand(op):
+        if r[0] == "call" and mir.last_seg(str(r[2])) == "new":
+            v = _const_expr_variant(body, body.term(r[1])["args"][0], depth + 1)
+            if v:
+                return v
+        elif r[0] == "agg":
+            rv = body.blocks[r[1]]["stmts"][r[2]]["rv"]
+            if rv.get("adt") == "ast::ConstExprEnum":
+                return rv.get("variant")
+            if rv.get("adt") == "ast::ConstExpr" and rv["ops"]:
+                v = _const_expr_variant(body, rv["ops"][0], depth + 1)
+                if v:
+                    return v
+    return None
+
+
+def rule_s21(ctx):
+    """The checker writes size expressions of its own (the result of `join` has `a + b - 1` elements); they are evaluated with
+    wrapping arithmetic, so a difference the checker synthesises has to be one that cannot underflow (`max(a + b, 1) - 1`), else the
+    type says 2^32 - 1 (or usize::MAX) elements where the compiled value has none."""
+    res = RuleResult("S21", "a difference in a size expression the type checker synthesises cannot underflow")
+    seen = 0
+    for f in ctx.facts["fns"]:
+        if "mir" not in f or not f["sp"][0].endswith("check.rs"):
+            continue
+        body = ctx.body(f["id"])
+        for b, blk in enumerate(body.blocks):
+            if blk["cleanup"]:
+                continue
+            for st in blk["stmts"]:
+                if st["k"] == "assign" and st["rv"]["k"] == "aggregate" and st["rv"].get("adt") == "ast::ConstExprEnum" and st["rv"].get("variant") == "Sub":
+                    seen += 1
+                    minuend = _const_expr_variant(body, st["rv"]["ops"][0])
+                    if minuend == "Max":
+                        res.ok({"function": f["id"], "line": st["sp"][1], "verdict": "the minuend is a max(..)"})
+                    else:
+                        res.bad(Finding("S21", f["id"], "synthesised size expression can underflow",
+                                        "the checker builds the size `%s - ..` itself; sizes are evaluated with wrapping arithmetic, so for the smallest operands the type has 2^32 - 1 elements while the "
+                                        "compiled value has none: `let mut a = join([y; 0], [y; 0]); a[0] = (true, y);` is accepted and panics in compile (index out of bounds)" % (minuend or "expr"), st["sp"]))
+    if not seen:
+        res.ok({"verdict": "the type checker synthesises no difference"})
+    return res
+
+
 def run(ctx):
-    return ctx.run_rules([rule_s1, rule_s2, rule_s3, rule_s4, rule_s6, rule_s7, rule_s8, rule_s9, rule_s10, rule_s11, rule_s12, rule_s13, rule_s14, rule_s15, rule_s16, rule_s17, rule_s18, rule_s19, rule_s20])
+    return ctx.run_rules([rule_s1, rule_s2, rule_s3, rule_s4, rule_s6, rule_s7, rule_s8, rule_s9, rule_s10, rule_s11, rule_s12, rule_s13, rule_s14, rule_s15, rule_s16, rule_s17, rule_s18, rule_s19, rule_s20, rule_s21])
